@@ -242,6 +242,14 @@ def r09_5(ctx):
     ys = [n for n in ii.cfg.where(lambda n: n.kind == 'stmt' and isinstance(n.ast, ast.Expr)
                                   and isinstance(n.ast.value, ast.Yield))]
     ok = bool(ys) and all(any(t.startswith('self._worker_active(') and not p for (t, p) in q.guards_norm(ii, n)) for n in ys)
+    if not ys:
+        # return filterfalse(self._worker_active, self._pool) / a generator expression with the negated test
+        for st in ast.walk(ii.node):
+            if isinstance(st, ast.Return) and st.value is not None:
+                txt = ast.unparse(st.value).replace(' ', '')
+                if txt in ('itertools.filterfalse(self._worker_active,self._pool)',
+                           'filterfalse(self._worker_active,self._pool)'):
+                    ok = True
     ctx.ob('R09.5', '_iterinactive:yields-only-inactive', ok, ii, ys[0] if ys else None,
            'a worker is yielded only when self._worker_active(worker) is false')
     wa = m.func('pool:Pool._worker_active')
@@ -361,6 +369,14 @@ def r09_12(ctx):
 def run(ctx):
     from .sweep import r09_13 as _r09_13
     _r09_13(ctx)
+    # the consumed-results counter of a new worker starts at zero: Value('i') has no initialiser, the zero fill of
+    # RawValue is all there is (borrowed from C15) -- heap blocks are recycled
+    from .c15 import r15_1 as _r15_1b
+    from ..report import Only as _OnlyS9
+    _r15_1b(_OnlyS9(ctx, ('RawValue:',), floor=1, doc='RawValue zero-fills the block it hands out (the pool\'s per-worker counters rely on it)'))
+    # shrink() ends a worker with the signal the workers handle (borrowed from C08)
+    from .c08 import r08_12 as _r08_12b
+    _r08_12b(_OnlyS9(ctx, ('Popen.terminate:',), floor=1, doc='Popen.terminate sends the (remappable) TERM_SIGNAL the workers handle'))
     r09_12(ctx)
     # whether a worker has exited is decided by waitpid alone (borrowed from C19)
     from .c19 import exit_decided_by_waitpid as _edw
@@ -404,6 +420,7 @@ def run(ctx):
 
 _P = 'billiard/pool.py'
 MUTANTS = [
+    ('supervisor-does-not-maintain', 'billiard/pool.py', '            while self._state == RUN and pool._state == RUN:\n                pool._maintain_pool()\n                time.sleep(0.8)\n', '            while self._state == RUN and pool._state == RUN:\n                time.sleep(0.8)\n', 'R09.13'),
     ('counter-handed-on-to-the-next-worker-of-the-slot', _P, "        on_ready_counter = self._ctx.Value('i')\n", "        on_ready_counter = self._on_ready_counters.get(i) or self._ctx.Value('i')\n", 'R09.12'),
     ('reaper-skips-workers-whose-sentinel-is-quiet', _P, "            worker = self._pool[i]\n            exitcode = worker.exitcode\n", "            worker = self._pool[i]\n            if worker._popen is not None and not worker._popen.sentinel:\n                continue\n            exitcode = worker.exitcode\n", 'R19.11'),
     ('exit-wrapper-keeps-the-first-status', _P, "        def exit(status=None):\n            _exitcode[0] = status\n", "        def exit(status=None):\n            if _exitcode[0] is None:\n                _exitcode[0] = status\n", 'R09.10'),
